@@ -1226,6 +1226,14 @@ fn handle_inner(op: &str, a: &[&str]) -> Option<Resp> {
                     fail = Some(format!("vcs() = {}, the Vcs-* field reads {}", g, want));
                 }
             }
+            if *view == "apt.Release" && *name == "no_support_for_architecture_all" && fail.is_none() {
+                // documented reading (Debian repository format): the field's one defined value is
+                // `Packages`; a Release file that carries it has no support for Architecture: all
+                let has = parse_items(&text).and_then(|p| p.into_iter().next()).map(|p| p.iter().any(|f| f.0 == "No-Support-for-Architecture-all" && f.1 == "Packages")).unwrap_or(false);
+                if has && g != "b1" {
+                    fail = Some("No-Support-for-Architecture-all: Packages is read as false".to_string());
+                }
+            }
             if let (Some(w), None) = (want, &fail) {
                 if g != w {
                     fail = Some(format!("getter reads {}, the documented reading of the list is {}", g, w));
